@@ -3,7 +3,7 @@
 (* The two argument-dispatch decorators of qucumber/utils/__init__.py, as  *)
 (* explicit state machines over one call each.                             *)
 (*                                                                         *)
-(*  Part U  auto_unsqueeze_args over an index list                              *)
+(*  Part U  auto_unsqueeze_args over an index list                         *)
 (*          a call is (index list I as written in the decorator, the       *)
 (*          positional arguments - tensors of some shape or non-tensors -, *)
 (*          what the decorated function returns).  The wrapper walks the   *)
@@ -19,7 +19,7 @@
 (*          "the body received the caller's own object" are statements     *)
 (*          about object identity.                                         *)
 (*                                                                         *)
-(*  Part K  deprecated_kwarg over an alias table                                    *)
+(*  Part K  deprecated_kwarg over an alias table                            *)
 (*          a call is (ordered alias table, set of keyword names given,    *)
 (*          number of positional arguments).  The wrapper walks the table  *)
 (*          in order: Skip (alias not given), Clash (alias and its true    *)
